@@ -1296,11 +1296,17 @@ func (p *Path) callBuiltin(name string, args []Value, fr *Frame, cc *ssa.CallCom
 			}
 			return mkStr(bs)
 		}
+	case "ssa:deferstack":
+		// the defer stack handle of go/ssa (range-over-func support): defers are kept per frame here
+		return nil
 	case "ssa:wrapnilchk":
 		if isNilValue(args[0]) {
 			p.throwRuntime("nil pointer dereference (method value wrapper)")
 		}
 		return args[0]
+	}
+	if len(args) == 0 {
+		p.unsup("builtin %s without arguments", name)
 	}
 	p.unsup("builtin %s on %T", name, args[0])
 	return nil
